@@ -1,5 +1,6 @@
 import Driver.Util
 import RxnModel.Model.Rescale
+import RxnModel.Generated.Facts
 /-!
 Driver section for C06 (trace validation: every input line is `op ## impl-output`).
 
@@ -19,6 +20,10 @@ structure Inst where
   s : State
   /-- newest binding first -/
   spec : List Entry
+  /-- started empty (not restored from handles) -/
+  fresh : Bool := true
+  /-- the known-finding situation this instance is in, if any (see `kfSituation`) -/
+  kf : Option String := none
 
 structure Saved where
   inst : Nat
@@ -55,10 +60,13 @@ def showAnswer : Option Bytes → String
 def showScan (r : Run) : String :=
   if r.isEmpty then "empty" else joinWith "," (r.map fun e => toHex e.key ++ ":" ++ toHex e.val)
 
-/-- a deviation of the modelled code from the spec can only be the open finding D37 (second rescale of instances that
-hold table entries outside their own range); anything else is reported by the harness as a violation -/
-def withSpec (model spec : String) : String :=
-  if model == spec then model else model ++ " #spec " ++ spec ++ " #kf D37"
+/-- a deviation of the modelled code from the spec is tagged as a known finding only when the instance is in that
+finding's situation (`kfSituation`); otherwise it is printed untagged and the harness reports a violation -/
+def withSpec (kf : Option String) (model spec : String) : String :=
+  if model == spec then model else
+  match kf with
+  | some id => model ++ " #spec " ++ spec ++ " #kf " ++ id
+  | none => model ++ " #spec " ++ spec
 
 def specGet (m : List Entry) (k : Bytes) : Option Entry := Run.lookup m k
 
@@ -102,6 +110,53 @@ def ckptMismatch (i : Inst) (c : Ckpt) : Option Bytes :=
   let keys := ((i.spec.map (·.key)) ++ ckptKeys c).eraseDups.filter (Keys.ownsKey i.range)
   keys.find? (fun k => ckptAnswer c k != answer (specGet i.spec k))
 
+/-- ascending, pairwise disjoint key ranges (executable form of `LevelValid`) -/
+def levelValidB : List Tbl → Bool
+  | [] => true
+  | [t] => Bytes.cmp t.startKey t.endKey != .gt
+  | t :: u :: rest => Bytes.cmp t.startKey t.endKey != .gt && Bytes.cmp t.endKey u.startKey == .lt && levelValidB (u :: rest)
+
+def runSortedB : Run → Bool
+  | [] => true
+  | [_] => true
+  | a :: b :: rest => Bytes.cmp a.key b.key == .lt && runSortedB (b :: rest)
+
+/-- the hypotheses of the restore theorems (`Rescale.SrcOk`) evaluated on a real document -/
+def inFamily (r : KGRange) (c : Ckpt) : Bool :=
+  (ckptKeys c).all (fun k => decide (2 ≤ k.length) && Keys.ownsKey r k) &&
+  c.levels.flatten.all (fun t => !t.run.isEmpty && runSortedB t.run) &&
+  c.levels.tail.all levelValidB
+
+/-- The situation of the open findings D37/D47: some source document of the restore carries keys outside the source
+instance's own key-group range (only possible when that source was itself restored from a handle it partly owned,
+i.e. this is a second rescale). D37 = the merged deeper levels overlap; D47 = they do not (a stale foreign copy
+shadows through level 0 / level order). No other situation is ever tagged. -/
+def kfSituation (sources : List (KGRange × Ckpt)) (s : State) : Option String :=
+  if sources.any (fun (r, c) => (ckptKeys c).any (fun k => !Keys.ownsKey r k)) then
+    if s.levels.tail.all levelValidB then some "D47" else some "D37"
+  else none
+
+/-! the operator's own stores over the instance: `KeyedStateStore.GetState/ApplyMutations`, `TimerStore.Put/GetEarliest` -/
+
+/-- `decodeKey` + the grouping of `GetState`: namespace and data of every scanned entry, in scan order -/
+def showState (plen : Nat) (r : Run) : String :=
+  if r.isEmpty then "empty" else
+  joinWith "," (r.map fun e =>
+    let rest := e.key.drop plen
+    let nsLen := (rest.headD 0).toNat
+    toHex ((rest.drop 1).take nsLen) ++ "/" ++ toHex ((rest.drop 1).drop nsLen) ++ "=" ++ toHex e.val)
+
+/-- `TimerStore.GetEarliest`: smallest timestamp over the key groups of the operator's range -/
+def earliest (scanOf : Bytes → Run) (r : KGRange) : String :=
+  let all := (List.range (r.stop - r.start)).flatMap fun i =>
+    scanOf (Bytes.u16be (r.start + i) ++ [UInt8.ofNat Facts.schemaTimer])
+  match all.foldl (fun (best : Option Entry) e =>
+      match best with
+      | none => some e
+      | some b => if Bytes.cmp ((e.key.drop 3).take 8) ((b.key.drop 3).take 8) == .lt then some e else some b) none with
+  | none => "none"
+  | some e => toString (Bytes.beNat ((e.key.drop 3).take 8)) ++ " " ++ toHex (e.key.drop 11)
+
 def parseHandle (s : String) : Nat × Nat :=
   match s.splitOn ":" with
   | [a, b] => (natOr a, natOr b)
@@ -118,7 +173,7 @@ def step (st : St) (ws : List String) : St × String :=
     (st, showAssign (a.map fun idx => pick (List.range (parseRanges frm).length) idx))
   | ["assigncheck", _, _, _, _] => (st, "ok")   -- spec: C06.assign_exact / assign_complete evaluated on the implementation
   | ["new", id, lo, hi, _, _] =>
-    (setInst st ⟨natOr id, ⟨natOr lo, natOr hi⟩, {}, []⟩, "ok")
+    (setInst st ⟨natOr id, ⟨natOr lo, natOr hi⟩, {}, [], true, none⟩, "ok")
   | ["put", id, k, v] =>
     match findInst st (natOr id) with
     | some i => (setInst st { i with s := write i.s (hexOr k) false (hexOr v), spec := ⟨hexOr k, 0, false, hexOr v⟩ :: i.spec }, "ok")
@@ -135,6 +190,7 @@ def step (st : St) (ws : List String) : St × String :=
       match ckptMismatch i c with
       | some k => (st, "bad-ckpt " ++ toHex k)
       | none =>
+        if i.fresh && !inFamily i.range c then (st, "ckpt-outside-theorem-family") else
         ({ st with saved := ⟨i.id, natOr cid, i.range, c, i.spec⟩ :: st.saved }, joinWith " " hint)
     | some _, _ => (st, "ckpt-unreadable")
     | none, _ => (st, "no-instance")
@@ -146,23 +202,55 @@ def step (st : St) (ws : List String) : St × String :=
     if found.length != handles.length then (st, "no-handle") else
     let s := openDB own (found.map (·.ck))
     let spec := found.flatMap fun sv => sv.spec.filter (fun e => own e.key)
-    (setInst st ⟨natOr id, r, s, spec⟩, "ok")
+    (setInst st ⟨natOr id, r, s, spec, false, kfSituation (found.map fun sv => (sv.range, sv.ck)) s⟩, "ok")
   | ["seq", id] =>
     match findInst st (natOr id) with
     | some i => (st, s!"seq={i.s.seq}")
     | none => (st, "no-instance")
   | ["get", id, k] =>
     match findInst st (natOr id) with
-    | some i => (st, withSpec (showAnswer (answer (getR i.s (hexOr k)))) (showAnswer (answer (specGet i.spec (hexOr k)))))
+    | some i => (st, withSpec i.kf (showAnswer (answer (getR i.s (hexOr k)))) (showAnswer (answer (specGet i.spec (hexOr k)))))
     | none => (st, "no-instance")
   | ["scan", id, p] =>
     match findInst st (natOr id) with
-    | some i => (st, withSpec (showScan (scanR i.s (hexOr p))) (showScan (specScan i.spec (hexOr p))))
+    | some i => (st, withSpec i.kf (showScan (scanR i.s (hexOr p))) (showScan (specScan i.spec (hexOr p))))
+    | none => (st, "no-instance")
+  | ["sput", id, kgc, subj, ns, data, v] =>
+    match findInst st (natOr id) with
+    | some i =>
+      if !Keys.ownsKey i.range (Keys.subjectKey (natOr kgc) (hexOr subj)) then (st, "not-routed") else
+      let k := Keys.dbKey (natOr kgc) (hexOr subj) (hexOr ns) (hexOr data)
+      (setInst st { i with s := write i.s k false (hexOr v), spec := ⟨k, 0, false, hexOr v⟩ :: i.spec }, "ok")
+    | none => (st, "no-instance")
+  | ["sdel", id, kgc, subj, ns, data] =>
+    match findInst st (natOr id) with
+    | some i =>
+      if !Keys.ownsKey i.range (Keys.subjectKey (natOr kgc) (hexOr subj)) then (st, "not-routed") else
+      let k := Keys.dbKey (natOr kgc) (hexOr subj) (hexOr ns) (hexOr data)
+      (setInst st { i with s := write i.s k true [], spec := ⟨k, 0, true, []⟩ :: i.spec }, "ok")
+    | none => (st, "no-instance")
+  | ["sget", id, kgc, subj] =>
+    match findInst st (natOr id) with
+    | some i =>
+      let p := Keys.subjectKey (natOr kgc) (hexOr subj)
+      if !Keys.ownsKey i.range p then (st, "not-routed") else
+      (st, withSpec i.kf (showState p.length (scanR i.s p)) (showState p.length (specScan i.spec p)))
+    | none => (st, "no-instance")
+  | ["tput", id, kgc, subj, t] =>
+    match findInst st (natOr id) with
+    | some i =>
+      if !Keys.ownsKey i.range (Keys.subjectKey (natOr kgc) (hexOr subj)) then (st, "not-routed") else
+      let k := Keys.timerKey (natOr kgc) (hexOr subj) (natOr t)
+      (setInst st { i with s := write i.s k false [], spec := ⟨k, 0, false, []⟩ :: i.spec }, "ok")
+    | none => (st, "no-instance")
+  | ["tearliest", id, _] =>
+    match findInst st (natOr id) with
+    | some i => (st, withSpec i.kf (earliest (scanR i.s) i.range) (earliest (specScan i.spec) i.range))
     | none => (st, "no-instance")
   | ["scanown", id] =>
     match findInst st (natOr id) with
     | some i =>
-      (st, withSpec (showScan ((scanR i.s []).filter (fun e => Keys.ownsKey i.range e.key))) (showScan (specScan i.spec [])))
+      (st, withSpec i.kf (showScan ((scanR i.s []).filter (fun e => Keys.ownsKey i.range e.key))) (showScan (specScan i.spec [])))
     | none => (st, "no-instance")
   | _ => (st, "bad-op")
 
